@@ -73,6 +73,16 @@ CHECKS = {
                  "is checked to feed the rewritten spelling into its retry lookup and to store/cache the rewritten spelling.",
         "note": NOTE,
     },
+    "C17": {
+        "technique": "who-may-write enumeration of manager state; check-before-write and must-pass-through queries on CFGs (listener pairing "
+                     "around the store of the current system); def-use terms for argument roles and mapping aliasing",
+        "level": "For every sequence of add / remove / select / template / default-unit calls: state is written only by its designated "
+                 "methods, no raise follows a write (rejected calls change nothing), ids are unique and template coverage is checked before "
+                 "registration, SetCurrent unregisters the old listener and registers the new one on every path and always fires on_current, "
+                 "automatic selection picks registered objects, notifications follow mutations, template mappings are deep-copied, "
+                 "ConvertToCurrent has the right roles. Two design-level defects (unguarded SetCurrent, mapping kept by reference) are recorded findings.",
+        "note": NOTE,
+    },
     "C19": {
         "technique": "exhaustive default-category resolution over the interpreted table; flow-sensitive def-use terms for constructor "
                      "argument roles; format-string/argument order analysis of __repr__",
